@@ -496,7 +496,7 @@ package planner
 // goroutine of an errgroup (fork/join model: Group.Go runs the function when it is handed over,
 // Group.Wait returns the first error recorded): a failing row - in particular a failing driver
 // call - makes the whole step fail.
-//@ props C20 C08
+//@ props C20 C08 C10
 //@ func (p *queryPlan) specifyClauseWithTable
 //@   opt go-sequential
 //@   opt modifies-everything
